@@ -82,6 +82,24 @@ Theorem c09_unknown_mode : forall m q i t',
   exists msg, read_request m (replace_nth (S i) t' (encode_args q)) = PErr msg.
 Proof. exact mode_corrupted_rejected. Qed.
 
+(* which mode tokens are unknown: everything but the null / empty marker and EXACTLY the code of one mode — a longer
+   token that merely begins with a mode letter ("Mx", "CD", "RAW") is an unknown mode code *)
+Theorem c09_mode_accepted_only_if_exact : forall t m, decode_modes t = DOk (Some m) -> t = mode_value m.
+Proof. exact decode_modes_exact. Qed.
+
+Theorem c09_mode_unknown_rejected : forall t,
+  t <> null_value -> t <> empty_value -> (forall m, In m all_modes -> t <> mode_value m) ->
+  exists e, decode_modes t = DErr e.
+Proof. exact decode_modes_unknown. Qed.
+
+Example c09_mode_examples :
+  decode_modes (bs "M") = DOk (Some ModeMerge) /\ decode_modes (bs "#") = DOk None /\
+  decode_modes (bs "Mx") = DErr (bs "Unknown mode 'Mx' found") /\
+  decode_modes (bs "CD") = DErr (bs "Unknown mode 'CD' found") /\
+  decode_modes (bs "RAW") = DErr (bs "Unknown mode 'RAW' found") /\
+  decode_modes [] = DErr (bs "Unknown mode '' found").
+Proof. exact decode_modes_examples. Qed.
+
 Theorem c09_unknown_platform : forall m q i t',
   shape_ok m q = true -> ints_ok q -> S i < fixed_len m -> Nat.even i = true ->
   nth_error (encode_args q) i = Some [c_P] -> (exists e, decode_platform t' = DErr e) ->
@@ -163,3 +181,6 @@ Print Assumptions c09_malformed_class_data.
 Print Assumptions c09_wellformed_class.
 Print Assumptions c09_rejected.
 Print Assumptions c09_service_continues.
+Print Assumptions c09_mode_accepted_only_if_exact.
+Print Assumptions c09_mode_unknown_rejected.
+Print Assumptions c09_mode_examples.
